@@ -38,8 +38,9 @@ static int dot_filter(const struct dirent *dirent) {
 }
 
 static int compare(const struct dirent **first, const struct dirent **second) {
-  return strtol((*first)->d_name, NULL, 10) -
-         strtol((*second)->d_name, NULL, 10);
+  long first_index = strtol((*first)->d_name, NULL, 10);
+  long second_index = strtol((*second)->d_name, NULL, 10);
+  return (first_index > second_index) - (first_index < second_index);
 }
 
 static void create_linq_path(const char *path, struct trace *trace) {
